@@ -220,6 +220,8 @@ func highNonceProfile(name string, tier Tier, oracles []explore.Oracle, suffix i
 				return []world.Action{uni.Create(uni.A0, uni.S, 2)}
 			}
 			acts := hopMenu(w, o, uni.S, []int64{1, 256, 257}, true)
+			acts = append(acts, handoverMenu(w, o, [][]byte{uni.S})...)
+			acts = append(acts, uni.Create(uni.C1, uni.S, 1), uni.Create(uni.B0, uni.S, 1))
 			for _, n := range []int64{256, 257} {
 				acts = append(acts, uni.Call(uni.A0, uni.A0, vmcommon.BuiltInFunctionESDTNFTAddQuantity, uni.S, uni.Big(n), uni.Big(1)))
 				acts = append(acts, uni.Call(uni.A0, uni.A0, vmcommon.BuiltInFunctionESDTNFTBurn, uni.S, uni.Big(n), uni.Big(1)))
